@@ -68,3 +68,10 @@ pub fn global_leaks() -> Vec<String> {
     }
     out
 }
+
+/// Let the currently runnable tasks run a few rounds without advancing virtual time.
+pub async fn settle_yield() {
+    for _ in 0..8 {
+        tokio::task::yield_now().await;
+    }
+}
